@@ -10,6 +10,7 @@ import (
 	"fmt"
 	"hash/fnv"
 	"math/rand/v2"
+	"os"
 	"sort"
 	"strings"
 	"sync"
@@ -18,6 +19,8 @@ import (
 
 	"github.com/resgateio/resgate/server/verifhook"
 )
+
+var echoLines = os.Getenv("SIM_ECHO") != ""
 
 // Decision is one scheduler step, self-contained so that a trace can be
 // replayed and shrunk without the PRNG.
@@ -120,14 +123,14 @@ type Sim struct {
 
 func newSim(cfg *RunCfg) *Sim {
 	s := &Sim{
-		Cfg:    cfg,
-		rng:    rand.New(rand.NewPCG(cfg.Seed, 0x9E3779B97F4A7C15)),
-		mrng:   rand.New(rand.NewPCG(cfg.Seed^0xD1B54A32D192ED03, 0xA0761D6478BD642F)),
-		seen:   map[any]int{},
-		cidIdx: map[string]int{},
-		Stats:  map[string]int{},
-		Probes: map[string]int{},
-		srcCnt: map[string]int{},
+		Cfg:           cfg,
+		rng:           rand.New(rand.NewPCG(cfg.Seed, 0x9E3779B97F4A7C15)),
+		mrng:          rand.New(rand.NewPCG(cfg.Seed^0xD1B54A32D192ED03, 0xA0761D6478BD642F)),
+		seen:          map[any]int{},
+		cidIdx:        map[string]int{},
+		Stats:         map[string]int{},
+		Probes:        map[string]int{},
+		srcCnt:        map[string]int{},
 		refetchFailed: map[*Variant]bool{},
 		sawDerived:    map[*Variant]bool{},
 	}
@@ -295,6 +298,9 @@ func (s *Sim) obsLocked(source, line string) {
 	fmt.Fprintf(h, "%d|%s|%d|%s", s.Step, source, n, line)
 	s.Stats["obs"]++
 	s.obsHash += h.Sum64() * 1099511628211
+	if echoLines {
+		fmt.Fprintf(os.Stderr, "%04d %-10s %s\n", s.Step, source, line)
+	}
 	if s.keepLines {
 		s.obsLines = append(s.obsLines, fmt.Sprintf("%04d %-10s %s", s.Step, source, line))
 	}
